@@ -375,7 +375,10 @@ class FnAnalysis(Analysis):
         if isinstance(node, ast.Assert):
             v = self.val(node.test, st)
             if st.ctl or v.taint:
-                self.raiser(node, "AssertionError", "assert reachable / decided by peer-controlled data")
+                if self.prove(node.test, st):
+                    self.raiser(node, "AssertionError", "", proved="the asserted condition follows from the lengths / ranges / classes established on this path")
+                else:
+                    self.raiser(node, "AssertionError", "assert reachable / decided by peer-controlled data")
             out = [(x, st) for x in self.pending]
             self.pending = []
             return out
@@ -485,8 +488,15 @@ class FnAnalysis(Analysis):
 
     def assign(self, target, v: Val, st: St, value_node):
         if isinstance(target, ast.Name):
+            cut = None
+            if isinstance(value_node, ast.Subscript) and isinstance(value_node.slice, ast.Slice) and value_node.slice.lower is None and value_node.slice.step is None \
+                    and isinstance(value_node.slice.upper, ast.Name) and (self.key_of(value_node.value), value_node.slice.upper.id) in st.lenge \
+                    and value_node.slice.upper.id != target.id:
+                cut = value_node.slice.upper.id          # y = x[:n] with len(x) >= n: len(y) == n
             st.env[target.id] = v
-            if st.lenge:
+            if cut is not None:
+                st.lenge = frozenset(p for p in st.lenge if target.id not in p) | {("=", target.id, cut)}
+            elif st.lenge:
                 st.lenge = frozenset(p for p in st.lenge if target.id not in p)
                 if isinstance(value_node, ast.Name) and value_node.id != target.id:
                     # y = off: what is known to remain behind off remains behind y
@@ -591,6 +601,78 @@ class FnAnalysis(Analysis):
                     return None
         return None
 
+    def assert_holds(self, node, st: St) -> bool:
+        """(hook of the structured interpreter) the failing branch of this assert has no feasible way out"""
+        return self.prove(node.test, st)
+
+    def prove(self, test, st: St, truth: bool = True) -> bool:
+        """the test certainly has the given truth value in this abstract state: interval reasoning over integer ranges and buffer lengths,
+        class sets for issubclass / isinstance.  False means "not shown"."""
+        if isinstance(test, ast.UnaryOp) and isinstance(test.op, ast.Not):
+            return self.prove(test.operand, st, not truth)
+        if isinstance(test, ast.BoolOp):
+            conj = isinstance(test.op, ast.And) == truth
+            return all(self.prove(v, st, truth) for v in test.values) if conj else any(self.prove(v, st, truth) for v in test.values)
+        d = self.decide(test, st)
+        if d is not None:
+            return d == truth
+        saved, self.pending = self.pending, []
+        try:
+            if isinstance(test, ast.Call) and isinstance(test.func, ast.Name) and test.func.id in ("issubclass", "isinstance") and len(test.args) == 2 and truth:
+                v = self.val(test.args[0], st)
+                cands = test.args[1].elts if isinstance(test.args[1], ast.Tuple) else [test.args[1]]
+                want = {r.qual for r in (self.prog.resolve_expr(self.m, c, self.fn.cls) for c in cands) if isinstance(r, ClassInfo)}
+                have = v.classes if test.func.id == "issubclass" else (v.types if not v.may_none else frozenset())
+                if want and have and len(want) == len(cands):
+                    return all(q in self.prog.classes and want & {k.qual for k in self.prog.mro(self.prog.classes[q])} for q in have)
+                return False
+            if not isinstance(test, ast.Compare):
+                return False
+
+            def rng(e):
+                """(lo, hi) of an integer-valued expression; None = unbounded"""
+                if isinstance(e, ast.Call) and isinstance(e.func, ast.Name) and e.func.id == "len" and len(e.args) == 1:
+                    b = self.val(e.args[0], st)
+                    if b.kind in ("bytes", "list", "str", "strlist", "any"):
+                        return (b.exact if b.exact is not None else b.lb, b.exact)
+                    return (0, None)
+                v = self.val(e, st)
+                if isinstance(v.cv, int) and not isinstance(v.cv, bool) and v.cv is not Val.NOCV:
+                    return (v.cv, v.cv)
+                if v.kind in ("int", "bool"):
+                    return (v.ilb, v.iub)
+                return None
+            items = [test.left] + list(test.comparators)
+            for (l, op, r) in zip(items, test.ops, items[1:]):
+                # relational: len(y) == n for y = x[:n] cut under len(x) >= n
+                if isinstance(op, (ast.Eq, ast.GtE, ast.LtE)) and truth:
+                    for a_, b_ in ((l, r), (r, l)):
+                        k = self.len_of(a_, st)
+                        if k is not None and isinstance(b_, ast.Name) and ("=", k, b_.id) in st.lenge:
+                            break
+                    else:
+                        k = None
+                    if k is not None:
+                        continue
+                a, b = rng(l), rng(r)
+                if a is None or b is None:
+                    return False
+                name = type(op).__name__
+                if not truth:
+                    name = {"Lt": "GtE", "GtE": "Lt", "Gt": "LtE", "LtE": "Gt", "Eq": "NotEq", "NotEq": "Eq"}.get(name)
+                    if len(test.ops) > 1:
+                        return False          # (the negation of a chain is a disjunction: not attempted)
+                (alo, ahi), (blo, bhi) = a, b
+                ok = {"Lt": ahi is not None and blo is not None and ahi < blo, "LtE": ahi is not None and blo is not None and ahi <= blo,
+                      "Gt": alo is not None and bhi is not None and alo > bhi, "GtE": alo is not None and bhi is not None and alo >= bhi,
+                      "Eq": None not in (alo, ahi, blo, bhi) and alo == ahi == blo == bhi,
+                      "NotEq": (ahi is not None and blo is not None and ahi < blo) or (bhi is not None and alo is not None and bhi < alo)}.get(name, False)
+                if not ok:
+                    return False
+            return True
+        finally:
+            self.pending = saved
+
     def refine(self, test, truth, st: St):
         if isinstance(test, ast.UnaryOp) and isinstance(test.op, ast.Not):
             return self.refine(test.operand, not truth, st)
@@ -694,6 +776,31 @@ class FnAnalysis(Analysis):
                     st.env[name] = v.but(lb=max(v.lb, c + 1))
                 elif opn == "Eq":
                     st.env[name] = v.but(lb=max(v.lb, c), exact=c)
+            # integer range facts: n OP <constant> for an integer local n
+            for (ll, rr, fl) in ((l, r, False), (r, l, True)):
+                c = self.cint(rr)
+                if isinstance(ll, ast.Name) and c is not None and ll.id in st.env and st.env[ll.id].kind == "int" and st.env[ll.id].cv is Val.NOCV:
+                    opn = type(op).__name__
+                    if fl:
+                        opn = {"Lt": "Gt", "Gt": "Lt", "LtE": "GtE", "GtE": "LtE"}.get(opn, opn)
+                    if not truth:
+                        opn = {"Lt": "GtE", "GtE": "Lt", "Gt": "LtE", "LtE": "Gt", "Eq": "NotEq", "NotEq": "Eq"}.get(opn)
+                    v = st.env[ll.id]
+                    lo, hi = v.ilb, v.iub
+                    if opn in ("GtE", "Gt", "Eq"):
+                        k = c + (1 if opn == "Gt" else 0)
+                        lo = k if lo is None else max(lo, k)
+                    if opn in ("LtE", "Lt", "Eq"):
+                        k = c - (1 if opn == "Lt" else 0)
+                        hi = k if hi is None else min(hi, k)
+                    if opn == "NotEq":
+                        if lo is not None and lo == c:
+                            lo = c + 1
+                        if hi is not None and hi == c:
+                            hi = c - 1
+                    if (lo, hi) != (v.ilb, v.iub):
+                        st.env[ll.id] = v.but(ilb=lo, iub=hi)
+                    break
             # None-ness is irrelevant here
 
     def enum_member_list(self, e, st=None) -> Optional[str]:
@@ -1085,7 +1192,7 @@ class FnAnalysis(Analysis):
         if base.elem is not None:
             return base.elem.but(taint=base.elem.taint or base.taint)
         kind = {"bytes": "int", "str": "str", "strlist": "str"}.get(base.kind, "any")
-        return Val(taint=base.taint, kind=kind, ilb=0 if kind == "int" and base.kind == "bytes" else None)
+        return Val(taint=base.taint, kind=kind, ilb=0 if kind == "int" and base.kind == "bytes" else None, iub=255 if kind == "int" and base.kind == "bytes" else None)
 
     def masked_index_ok(self, e: ast.Subscript, st) -> bool:
         """table[(x) & MASK] with a module-level literal table longer than MASK."""
@@ -1170,7 +1277,7 @@ class FnAnalysis(Analysis):
             elif isinstance(op, ast.Mod) and b.ilb is not None and b.ilb > 0 and b.iub is not None:
                 iub, ilb = b.iub - 1, 0
             elif isinstance(op, ast.RShift) and a.iub is not None and a.ilb is not None and a.ilb >= 0:
-                iub = a.iub
+                iub = a.iub >> b.cv if (isinstance(b.cv, int) and not isinstance(b.cv, bool) and 0 <= b.cv < 64) else a.iub
             elif isinstance(op, ast.Add) and a.iub is not None and b.iub is not None:
                 iub = a.iub + b.iub
         return Val(taint, kind, ilb=ilb, cv=cv, iub=iub)
@@ -1710,7 +1817,12 @@ class FnAnalysis(Analysis):
                 return Val(buf.taint, "list", elem=Val(buf.taint, "int", ilb=None if signed else 0))
             if name == "int.from_bytes":
                 signed = any(k.arg == "signed" for k in e.keywords)
-                return Val(any_taint, "int", ilb=None if signed else 0)
+                width = a0.exact if (a0.exact is not None and a0.exact <= 8) else None
+                if width is None and e.args and isinstance(e.args[0], ast.Subscript) and isinstance(e.args[0].slice, ast.Slice) and e.args[0].slice.step is None:
+                    lo_, hi_ = self.cint(e.args[0].slice.lower) if e.args[0].slice.lower is not None else 0, self.cint(e.args[0].slice.upper)
+                    if lo_ is not None and hi_ is not None and 0 <= lo_ <= hi_ <= lo_ + 8:
+                        width = hi_ - lo_          # a constant slice is at most that wide, however long the buffer is
+                return Val(any_taint, "int", ilb=None if signed else 0, iub=(256 ** width - 1) if (width is not None and not signed) else None)
             if name == "ipaddress.IPv4Address":
                 if a0.taint:
                     if a0.exact == 4:
